@@ -30,6 +30,8 @@ pub const NETWORKS: &[(&str, &str)] = &[
     ("shared2", "a -> b\nb -> a\n$a: h(b)\n$b: h(a)\n"),
     // network variables named like the auxiliary BDD variables of the extended encoding ("{var}_extra_{i}")
     ("xtra2", "a_extra_0 -> b_extra_1\nb_extra_1 -?? a_extra_0\n"),
+    // isolated steady states (no predecessors), an input-like variable
+    ("iso2", "a -> a\na -> b\nb -> b\n$a: a\n$b: a & b\n"),
 ];
 
 pub struct Xg {
